@@ -43,6 +43,17 @@ def gen_crash(rng, tier):
         ops.append("settle")
         ops.append("enumerate probe=%d geom=%s" % (rng.choice([1, 5, 9, 13]), geom))
         cases.append(Case("crash-%d" % i, ops, True, "random"))
+    # directed: snapshots are registered (the file written through the manager's writer, `CompleteSnapshot`: older snapshot
+    # files unlinked, catalogue rewritten) between appends; at every prefix the snapshot a start would load - the last one
+    # the catalogue names - must have its file
+    for nsn in ((3, 4) if not big else (2, 3, 4, 5)):
+        ops = ["begin geom=4,64", "hs 1 1", "b 1 1 6 5 0"]
+        for j in range(nsn):
+            ops += ["applied %d" % (4 + 2 * j), "snap %d" % (4 + 2 * j), "a %d 1 5 %d" % (7 + 2 * j, 100 + j), "a %d 1 5 %d" % (8 + 2 * j, 200 + j)]
+            if j % 2 == 1:
+                ops.append("settle")
+        ops += ["settle", "enumerate probe=3 geom=4,64"]
+        cases.append(Case("snapshots-%d" % nsn, ops, True, "directed"))
     # directed: fill index steps exactly, roll over, cut across files
     for geom, per in (("4,64", 44), ("3,100", 60)):
         ops = ["begin geom=" + geom, "hs 1 1", "b 1 1 %d 5 0" % (per - 1), "a %d 1 5 900" % per, "a %d 1 5 901" % (per + 1),
@@ -75,5 +86,7 @@ class C04(Prop):
         "crash model of the property: process death with the OS surviving, each write call atomic, program order",
         "the specification of the log is RNacos/Model/LogStore.lean (a list)",
     ]
-    assumptions = ["compaction / snapshot installation are not part of the enumerated histories (their file sequences "
-                   "are exercised by C01's restart correspondence, not prefix by prefix)"]
+    assumptions = ["of compaction only the registration of snapshots is part of the enumerated histories (op snap: file "
+                   "through the manager's writer, CompleteSnapshot with its unlinks and catalogue write; every prefix must "
+                   "leave the catalogue's last snapshot on disk); the compaction pointer in the log and snapshot "
+                   "installation are exercised by C01's / C08's restart correspondence, not prefix by prefix"]
